@@ -22,7 +22,7 @@ from typing import Dict, FrozenSet, Iterable, List, Optional, Set, Tuple
 
 from .calls import Calls, Target
 from .cfg import CFG, Node, cfg_of
-from .model import (accessor_value, AnalysisError, ClassInfo, EnumMember, FuncInfo, Program, UNKNOWN, is_self_attr, norm,
+from .model import (accessor_value, AnalysisError, ClassInfo, EnumMember, FuncInfo, Module, Program, UNKNOWN, is_self_attr, norm,
                     strip_cast, unparse, walk_shallow)
 
 Atom = Tuple
@@ -87,6 +87,14 @@ class Canon:
 
     def _inlinable(self, v: ast.expr) -> bool:
         """Alias only attribute chains on self / on a never-reassigned parameter, and zero-argument accessor calls on them."""
+        if isinstance(v, (ast.Attribute, ast.Name)) and not (isinstance(v, ast.Name) and (v.id == 'self' or v.id in self._stable_params)):
+            # ``labels = process_states.ProcessState``: a local name for a class or a module of the program
+            try:
+                r = self.prog.resolve(self.func.module, v)
+            except Exception:  # noqa: BLE001
+                r = None
+            if isinstance(r, (ClassInfo, Module)):
+                return True
         if isinstance(v, ast.Attribute):
             return self._inlinable(v.value)
         if isinstance(v, ast.Name):
@@ -261,10 +269,10 @@ class FuncFacts:
                 holds = isinstance(op, ast.In) == truth
                 return {('T', k), ('notnone', k)} if holds else {('F', k)}
             if isinstance(op, (ast.Eq, ast.NotEq, ast.Is, ast.IsNot)):
-                c = self.eng.prog.fold(self.func.module, right, self.func.owner_class)
+                c = self.eng.prog.fold(self.func.module, self.canon.expr(right), self.func.owner_class)
                 lk = left
                 if c is UNKNOWN:
-                    c = self.eng.prog.fold(self.func.module, left, self.func.owner_class)
+                    c = self.eng.prog.fold(self.func.module, self.canon.expr(left), self.func.owner_class)
                     lk = right
                 if c is not UNKNOWN and not isinstance(c, (frozenset, tuple)):
                     k = self.canon.key(lk)
@@ -464,6 +472,68 @@ class FuncFacts:
     def at(self, n: Node) -> FrozenSet[Atom]:
         fs = self.in_.get(n.id)
         return frozenset() if fs is TOP or fs is None else fs
+
+    def site_fact_cases(self, call: ast.Call) -> List[Tuple[Node, FrozenSet[Atom]]]:
+        """Like ``site_facts``, but a site that is the first thing run under ``if a or b:`` (or in the else of ``if a and b:``) is
+        reported once per way of getting there -- ``a`` true; ``a`` false and ``b`` true -- each with everything that way knows.
+        The joined facts only keep what all the ways agree on."""
+        out: List[Tuple[Node, FrozenSet[Atom]]] = []
+        for n, fs in self.site_facts(call):
+            edges = [(p, l) for p, l in n.pred if l not in ('exc', 'uncaught', 'handler')]
+            split = None
+            if len(edges) == 1 and edges[0][0].kind == 'test' and edges[0][1] in ('true', 'false'):
+                t, label = edges[0]
+                test = self.subst_flags(strip_cast(t.ast.test), self.at(t))
+                want = label == 'true'
+                if isinstance(test, ast.UnaryOp) and isinstance(test.op, ast.Not):
+                    test, want = test.operand, not want
+                if isinstance(test, ast.BoolOp) and isinstance(test.op, ast.Or) == want:
+                    split = (t, test.values, want)
+            if split is None:
+                out.append((n, fs))
+                continue
+            t, values, want = split
+            base = self._transfer(t, self.at(t))['*']
+            prior: Set[Atom] = set()
+            for v in values:
+                out.append((n, frozenset(base | prior | self.cond_atoms(v, want)) | fs))
+                prior |= self.cond_atoms(v, not want)
+        return out
+
+    def holds_on_every_path(self, target: Node, pred: Callable[[FrozenSet[Atom]], bool], pass_nodes: Iterable[Node] = (),
+                            edge_ok: Callable[[Optional[str]], bool] = lambda l: l not in ('exc', 'uncaught', 'handler')) -> bool:
+        """Does every path reaching ``target`` either run one of ``pass_nodes`` or arrive knowing ``pred``?
+
+        The joined facts at ``target`` forget what only some of the paths know (``if a: hook() elif b: ... ; return``): this asks
+        the question per incoming path.  Walking backwards, an edge is fine when its source is a pass node, when ``pred`` holds on
+        the edge, or when the source cannot destroy any fact ``pred`` may rely on (it kills nothing) and every edge into the source
+        is fine.  The function entry is never fine on its own."""
+        passing = {n.id for n in pass_nodes}
+        memo: Dict[int, bool] = {}
+
+        def node_ok(n: Node) -> bool:
+            if n.id in memo:
+                return memo[n.id]
+            memo[n.id] = True   # a cycle adds no new way in
+            if pred(self.at(n)) and self.reachable(n):
+                return True
+            edges = [(p, l) for p, l in n.pred if edge_ok(l) and self.reachable(p)]
+            ok = bool(edges) and all(edge_fine(p, l) for p, l in edges)
+            memo[n.id] = ok
+            return ok
+
+        def edge_fine(p: Node, label: Optional[str]) -> bool:
+            if p.id in passing:
+                return True
+            fs = self.at(p)
+            o = self._transfer(p, fs)
+            out = o.get(label, o['*'])
+            if pred(out):
+                return True
+            if not fs <= out:   # the node kills something: what an earlier node knew may not survive it
+                return False
+            return node_ok(p)
+        return node_ok(target)
 
     def reachable(self, n: Node) -> bool:
         return self.in_.get(n.id) is not TOP
